@@ -183,6 +183,11 @@ func MapOrderNondet(on bool) {}
 // using it are engine-only).
 func Replace(name string, fn interface{}) {}
 
+// Schedules(false) makes the engine follow its default schedule without spending the delay budget
+// until Schedules(true): the budget is then spent on the window of the scenario that matters (the
+// set-up before it runs under one schedule only, which is stated in the bounds). Native: no-op.
+func Schedules(on bool) {}
+
 // RacyScope makes every shared-memory access of functions whose name contains scope a scheduling
 // point under the engine (no effect natively).
 func RacyScope(scope string) {}
